@@ -1,11 +1,12 @@
 import Mutagen.Proofs.ScanReuse
+import Mutagen.Proofs.ScanIgnKeys
 /-!
 C13: an accelerated scan of `f₁` that starts from the cold scan of `f₀` equals
 the cold scan of `f₁`.  Definitions (the covering hypothesis) and the
 simulation proof.
 -/
 namespace Mutagen.Proofs.ScanSim
-open Mutagen.Model Mutagen.Model.ScanFS Mutagen.Proofs.ScanFrame Mutagen.Proofs.ScanPaths Mutagen.Proofs.ScanFS Mutagen.Proofs.ScanCold Mutagen.Proofs.ScanReuse
+open Mutagen.Model Mutagen.Model.ScanFS Mutagen.Proofs.ScanFrame Mutagen.Proofs.ScanPaths Mutagen.Proofs.ScanFS Mutagen.Proofs.ScanCold Mutagen.Proofs.ScanReuse Mutagen.Proofs.ScanIgnKeys
 
 def isDirNode : Node → Bool
   | .dir _ _ => true
@@ -207,31 +208,51 @@ theorem sim_file (cfg : Cfg) (acc : Accel) (p : String) (isRoot : Bool) (content
       rw [hm', hr]
       simp [fileDigest, fileCacheEntry]
 
+/-- `k` lies at or below a directory path that is not dirty (the only place where
+the accelerated scan may lack a key of the cold scan). -/
+def DroppedBelow (acc : Accel) (k : String × Bool) : Prop := ∃ cp, cp ≠ "" ∧ cp ∉ acc.dirty ∧ Under k.1 cp
+
 /-- The additions `a` (accelerated) and `c` (cold) agree. -/
-def SimSt (cfg : Cfg) (a c : St) : Prop :=
-  a.newCache = c.newCache ∧ a.dirs = c.dirs ∧ a.files = c.files ∧ a.links = c.links ∧ a.size = c.size ∧ IgnOK cfg a.newIgnore
+def SimSt (cfg : Cfg) (acc : Accel) (a c : St) : Prop :=
+  a.newCache = c.newCache ∧ a.dirs = c.dirs ∧ a.files = c.files ∧ a.links = c.links ∧ a.size = c.size ∧ IgnOK cfg a.newIgnore ∧
+    (∀ k, k ∈ ikeys a.newIgnore → k ∈ ikeys c.newIgnore) ∧
+    (∀ k, k ∈ ikeys c.newIgnore → k ∈ ikeys a.newIgnore ∨ DroppedBelow acc k)
 
 /-- Handler results agree. -/
-def SimRes (cfg : Cfg) (ra rc : Res × St) : Prop := ra.1 = rc.1 ∧ SimSt cfg ra.2 rc.2
+def SimRes (cfg : Cfg) (acc : Accel) (ra rc : Res × St) : Prop := ra.1 = rc.1 ∧ SimSt cfg acc ra.2 rc.2
 
 /-- Loop results agree. -/
-def SimL (cfg : Cfg) (ra rc : Option (Contents × St)) : Prop :=
+def SimL (cfg : Cfg) (acc : Accel) (ra rc : Option (Contents × St)) : Prop :=
   match ra, rc with
   | none, none => True
-  | some x, some y => x.1 = y.1 ∧ SimSt cfg x.2 y.2
+  | some x, some y => x.1 = y.1 ∧ SimSt cfg acc x.2 y.2
   | _, _ => False
 
-theorem simSt_refl (cfg : Cfg) (d : St) (h : IgnOK cfg d.newIgnore) : SimSt cfg d d := ⟨rfl, rfl, rfl, rfl, rfl, h⟩
+theorem simSt_refl (cfg : Cfg) (acc : Accel) (d : St) (h : IgnOK cfg d.newIgnore) : SimSt cfg acc d d := ⟨rfl, rfl, rfl, rfl, rfl, h, fun _ hk => hk, fun _ hk => Or.inl hk⟩
 
-theorem simSt_add (cfg : Cfg) (a c a' c' : St) (h : SimSt cfg a c) (h' : SimSt cfg a' c') : SimSt cfg (add a a') (add c c') := by
-  obtain ⟨h1, h2, h3, h4, h5, h6⟩ := h
-  obtain ⟨g1, g2, g3, g4, g5, g6⟩ := h'
-  refine ⟨by simp [add, h1, g1], by simp [add, h2, g2], by simp [add, h3, g3], by simp [add, h4, g4], by simp [add, h5, g5], ?_⟩
-  simp only [add]
-  exact ignOK_append cfg _ _ g6 h6
+theorem simSt_add (cfg : Cfg) (acc : Accel) (a c a' c' : St) (h : SimSt cfg acc a c) (h' : SimSt cfg acc a' c') : SimSt cfg acc (add a a') (add c c') := by
+  obtain ⟨h1, h2, h3, h4, h5, h6, h7, h8⟩ := h
+  obtain ⟨g1, g2, g3, g4, g5, g6, g7, g8⟩ := h'
+  refine ⟨by simp [add, h1, g1], by simp [add, h2, g2], by simp [add, h3, g3], by simp [add, h4, g4], by simp [add, h5, g5], ?_, ?_, ?_⟩
+  · simp only [add]
+    exact ignOK_append cfg _ _ g6 h6
+  · intro k hk
+    rw [ikeys_add] at hk ⊢
+    rcases hk with hk | hk
+    · exact Or.inl (g7 k hk)
+    · exact Or.inr (h7 k hk)
+  · intro k hk
+    rw [ikeys_add] at hk
+    rcases hk with hk | hk
+    · rcases g8 k hk with h | h
+      · left; rw [ikeys_add]; exact Or.inl h
+      · exact Or.inr h
+    · rcases h8 k hk with h | h
+      · left; rw [ikeys_add]; exact Or.inr h
+      · exact Or.inr h
 
-theorem simL_andThen (cfg : Cfg) (da dc : St) (ra rc : Option (Contents × St)) (hd : SimSt cfg da dc) (h : SimL cfg ra rc) :
-    SimL cfg (andThen da ra) (andThen dc rc) := by
+theorem simL_andThen (cfg : Cfg) (acc : Accel) (da dc : St) (ra rc : Option (Contents × St)) (hd : SimSt cfg acc da dc) (h : SimL cfg acc ra rc) :
+    SimL cfg acc (andThen da ra) (andThen dc rc) := by
   cases ra with
   | none => cases rc with
     | none => trivial
@@ -240,7 +261,7 @@ theorem simL_andThen (cfg : Cfg) (da dc : St) (ra rc : Option (Contents × St)) 
     | none => cases h
     | some y =>
       simp only [andThen, Option.map, SimL] at h ⊢
-      exact ⟨h.1, simSt_add cfg _ _ _ _ hd h.2⟩
+      exact ⟨h.1, simSt_add cfg acc _ _ _ _ hd h.2⟩
 
 theorem simSt_ign (cfg : Cfg) (ign : (String × Bool) × IgnoreVal) (h : ign.2 = cfg.ignorer ign.1.1 ign.1.2) :
     IgnOK cfg (ignSt [ign]).newIgnore := by
@@ -336,7 +357,7 @@ def SimOK (cfg : Cfg) (acc : Accel) (n₁ : Node) : Prop :=
     (link₀ : Fault × String),
     NamesOK cfg validName n₁ → OldAt cfg acc p isRoot mask (isDirNode n₁) c₀ mask₀ link₀ → BaseOf cfg p isRoot c₀ mask₀ link₀ b →
     (∀ c, c₀ = some c → Covers cfg acc.dirty p c n₁) →
-    SimRes cfg (scanNode cfg acc p isRoot b mask link n₁ {}) (cold cfg p isRoot mask link n₁)
+    SimRes cfg acc (scanNode cfg acc p isRoot b mask link n₁ {}) (cold cfg p isRoot mask link n₁)
 
 theorem childBaseline_some (b : Option Entry) (isDir : Bool) (name : Name) (e : Entry)
     (h : childBaseline b isDir name = some e) :
@@ -370,7 +391,7 @@ theorem ignoreDecision_inj (v : IgnoreVal) (mask cm cm' : Bool) (h : ignoreDecis
   cases h'
   rfl
 
-theorem simL_refl_none (cfg : Cfg) : SimL cfg none none := trivial
+theorem simL_refl_none (cfg : Cfg) (acc : Accel) : SimL cfg acc none none := trivial
 
 theorem mem_entryNames (cfg : Cfg) (cs : Children) (raw : Bytes) (node : Node) (name : Name)
     (hm : (raw, node) ∈ cs) (hn : entryName cfg raw = some name) : name ∈ entryNames cfg cs := by
@@ -517,13 +538,13 @@ set_option linter.unusedSectionVars false
 /-- The children loop of the accelerated scan simulates the cold one. -/
 theorem sim_loop : ∀ (cs₁ : Children) (contents : Contents),
     (∀ rn ∈ cs₁, SimOK cfg acc rn.2) → NamesOKL cfg validName cs₁ → CoversL cfg acc.dirty pfx cs₀ cs₁ →
-    SimL cfg (scanChildren cfg acc pfx all₁ cs₁ b mask contents {}) (scanChildren cfg {} pfx all₁ cs₁ none mask contents {}) := by
+    SimL cfg acc (scanChildren cfg acc pfx all₁ cs₁ b mask contents {}) (scanChildren cfg {} pfx all₁ cs₁ none mask contents {}) := by
   intro cs₁
   induction cs₁ with
   | nil =>
     intro contents _ _ _
     simp only [scanChildren, SimL]
-    exact ⟨trivial, simSt_refl cfg {} (fun kv hkv => by cases hkv)⟩
+    exact ⟨trivial, simSt_refl cfg acc {} (fun kv hkv => by cases hkv)⟩
   | cons c rest ih =>
     obtain ⟨raw₁, c₁⟩ := c
     intro contents hR hok hcov
@@ -537,7 +558,7 @@ theorem sim_loop : ∀ (cs₁ : Children) (contents : Contents),
     | skip => exact ih contents hR' hrest hcovrest
     | put name e ign =>
       simp only
-      exact simL_andThen cfg _ _ _ _ (simSt_refl cfg _ (preDispatch_put_ign cfg pfx mask raw₁ c₁ name e ign hpre))
+      exact simL_andThen cfg acc _ _ _ _ (simSt_refl cfg acc _ (preDispatch_put_ign cfg pfx mask raw₁ c₁ name e ign hpre))
         (ih _ hR' hrest hcovrest)
     | go name decoded cp isDir ign cm =>
       simp only [childBaseline_none, reuseDecision_none]
@@ -546,8 +567,8 @@ theorem sim_loop : ∀ (cs₁ : Children) (contents : Contents),
       have hcp := preDispatch_go_link _ _ _ _ _ _ _ _ _ _ _ _ hpre
       obtain ⟨hisDir, hignv, hdec⟩ := preDispatch_go_facts cfg pfx mask raw₁ c₁ name decoded cp isDir ign cm hpre
       have hcpne : cp ≠ "" := by rw [hcp]; exact goodPfx_ne pfx name (validName_pathName name hvn).2
-      have hignOK : SimSt cfg (ignSt [ign]) (ignSt [ign]) :=
-        simSt_refl cfg _ (simSt_ign cfg ign (by rw [hignv]))
+      have hignOK : SimSt cfg acc (ignSt [ign]) (ignSt [ign]) :=
+        simSt_refl cfg acc _ (simSt_ign cfg ign (by rw [hignv]))
       obtain ⟨c₀, mask₀, link₀, hold, hbase, hnames₀c, hcovc⟩ :=
         oldChild_of_go cfg acc hign pfx mask cs₀ contents₀ dL₀ hrun₀ hnd₀ hok₀ hloc b hb raw₁ c₁ name decoded cp isDir ign cm hpre hvn
           (hcov₁ name hn)
@@ -566,13 +587,13 @@ theorem sim_loop : ∀ (cs₁ : Children) (contents : Contents),
         simp only at hr
         subst hr
         cases ra with
-        | abort => exact simL_refl_none cfg
+        | abort => exact simL_refl_none cfg acc
         | notExist =>
           simp only
-          exact simL_andThen cfg _ _ _ _ (simSt_add cfg _ _ _ _ hignOK hst) (ih _ hR' hrest hcovrest)
+          exact simL_andThen cfg acc _ _ _ _ (simSt_add cfg acc _ _ _ _ hignOK hst) (ih _ hR' hrest hcovrest)
         | entry e =>
           simp only
-          exact simL_andThen cfg _ _ _ _ (simSt_add cfg _ _ _ _ hignOK hst) (ih _ hR' hrest hcovrest)
+          exact simL_andThen cfg acc _ _ _ _ (simSt_add cfg acc _ _ _ _ hignOK hst) (ih _ hR' hrest hcovrest)
       | some B =>
         simp only
         obtain ⟨hdb, hnotdirty, hheur⟩ := reuseDecision_some cfg acc cp _ B hrd
@@ -622,7 +643,33 @@ theorem sim_loop : ∀ (cs₁ : Children) (contents : Contents),
           obtain ⟨w, hw, c1, a1, b1, l1, s1, i1⟩ := hwalk
           rw [hw]
           simp only [Bool.false_eq_true, if_false]
-          exact simL_andThen cfg _ _ _ _ (simSt_add cfg _ _ _ _ hignOK ⟨c1, a1, b1, l1, s1, i1⟩) (ih _ hR' hrest hcovrest)
+          have hkey := preDispatch_go_key _ _ _ _ _ _ _ _ _ _ _ _ hpre
+          have hwk : ∀ k, k ∈ ikeys (add (ignSt [ign]) w).newIgnore →
+              k ∈ ikeys (add (ignSt [ign]) (cold cfg cp false mask₀ link₀ c₀x).2).newIgnore := by
+            intro k hk
+            rw [ikeys_add] at hk ⊢
+            rcases hk with hk | hk
+            · simp only [ikeys, List.mem_map] at hk
+              obtain ⟨kv, hkv, rfl⟩ := hk
+              have hw' : w = (reuseWalk acc cp B ({}, false)).1 := by rw [hw]
+              rw [hw'] at hkv
+              have htk := ((reuseWalk_ign acc B cp kv).mp hkv).1
+              rcases coldKeys_node cfg c₀x cp false mask₀ link₀ B he' kv.1 htk with h3 | h3
+              · right
+                simp only [ikeys, ignSt, List.map_cons, List.map_nil, List.mem_singleton]
+                rw [hkey, h3]
+              · exact Or.inl h3
+            · exact Or.inr hk
+          have hstw : SimSt cfg acc (add (ignSt [ign]) w) (add (ignSt [ign]) (cold cfg cp false mask₀ link₀ c₀x).2) := by
+            have := simSt_add cfg acc _ _ _ _ hignOK (simSt_refl cfg acc w i1)
+            obtain ⟨_, _, _, _, _, g6, _, _⟩ := this
+            refine ⟨by simp [add, c1], by simp [add, a1], by simp [add, b1], by simp [add, l1], by simp [add, s1], g6, hwk, ?_⟩
+            intro k hk
+            rw [ikeys_add] at hk
+            rcases hk with hk | hk
+            · exact Or.inr ⟨cp, hcpne, hnd, ignUnder_node cfg c₀x cp false mask₀ link₀ hcpne k hk⟩
+            · left; rw [ikeys_add]; exact Or.inr hk
+          exact simL_andThen cfg acc _ _ _ _ hstw (ih _ hR' hrest hcovrest)
 end
 
 theorem underP_refl (p : String) : UnderP p p := by
@@ -840,7 +887,7 @@ theorem sim_node : (n₁ : Node) → SimOK cfg acc n₁
     simp only [cold]
     unfold scanNode
     rw [sim_file cfg acc p isRoot content perm mtime size ino hfresh {}]
-    refine ⟨rfl, simSt_refl cfg _ ?_⟩
+    refine ⟨rfl, simSt_refl cfg acc _ ?_⟩
     rw [scanFile_ign]
     intro kv hkv
     cases hkv
@@ -848,7 +895,7 @@ theorem sim_node : (n₁ : Node) → SimOK cfg acc n₁
     intro p isRoot mask link b c₀ mask₀ link₀ _ _ _ _
     simp only [cold]
     unfold scanNode
-    refine ⟨rfl, simSt_refl cfg _ ?_⟩
+    refine ⟨rfl, simSt_refl cfg acc _ ?_⟩
     cases cfg.symlinkMode
     · intro kv hkv; cases hkv
     · simp only; rw [scanSymlink_ign]; intro kv hkv; cases hkv
@@ -857,13 +904,13 @@ theorem sim_node : (n₁ : Node) → SimOK cfg acc n₁
     intro p isRoot mask link b c₀ mask₀ link₀ _ _ _ _
     simp only [cold]
     unfold scanNode
-    exact ⟨rfl, simSt_refl cfg _ (fun kv hkv => by cases hkv)⟩
+    exact ⟨rfl, simSt_refl cfg acc _ (fun kv hkv => by cases hkv)⟩
   | .dir dev₁ cs₁ => by
     intro p isRoot mask link b c₀ mask₀ link₀ hok hold hbase hcov
     simp only [cold]
     unfold scanNode
-    have hinert : ∀ r : Res, SimRes cfg (r, ({} : St)) (r, ({} : St)) :=
-      fun r => ⟨rfl, simSt_refl cfg _ (fun kv hkv => by cases hkv)⟩
+    have hinert : ∀ r : Res, SimRes cfg acc (r, ({} : St)) (r, ({} : St)) :=
+      fun r => ⟨rfl, simSt_refl cfg acc _ (fun kv hkv => by cases hkv)⟩
     by_cases hdev : dev₁ ≠ cfg.deviceID
     · rw [if_pos hdev, if_pos hdev]; exact hinert _
     · rw [if_neg hdev, if_neg hdev]
@@ -874,14 +921,14 @@ theorem sim_node : (n₁ : Node) → SimOK cfg acc n₁
         · rw [if_pos hrd, if_pos hrd]; exact hinert _
         · rw [if_neg hrd, if_neg hrd]
           simp only [NamesOK] at hok
-          have hloop : SimL cfg (scanChildren cfg acc (if cs₁.isEmpty then "" else joinable p) cs₁ cs₁ b mask [] {})
+          have hloop : SimL cfg acc (scanChildren cfg acc (if cs₁.isEmpty then "" else joinable p) cs₁ cs₁ b mask [] {})
               (scanChildren cfg {} (if cs₁.isEmpty then "" else joinable p) cs₁ cs₁ none mask [] {}) := by
             cases hne : cs₁.isEmpty with
             | true =>
               have : cs₁ = [] := by simpa using hne
               subst this
               simp only [scanChildren, SimL]
-              exact ⟨trivial, simSt_refl cfg {} (fun kv hkv => by cases hkv)⟩
+              exact ⟨trivial, simSt_refl cfg acc {} (fun kv hkv => by cases hkv)⟩
             | false =>
               simp only [Bool.false_eq_true, if_false]
               obtain ⟨cs₀, contents₀, dL₀, hrun₀, hnd₀, hok₀, hlc, hb, hcv⟩ :=
@@ -899,12 +946,12 @@ theorem sim_node : (n₁ : Node) → SimOK cfg acc n₁
             | some y =>
               rw [hra, hrc] at hloop
               simp only [SimL] at hloop
-              obtain ⟨hc, h1, h2, h3, h4, h5, h6⟩ := hloop
+              obtain ⟨hc, h1, h2, h3, h4, h5, h6, h7, h8⟩ := hloop
               obtain ⟨xc, xd⟩ := x
               obtain ⟨yc, yd⟩ := y
-              simp only at hc h1 h2 h3 h4 h5 h6 ⊢
+              simp only at hc h1 h2 h3 h4 h5 h6 h7 h8 ⊢
               subst hc
-              exact ⟨rfl, h1, by simp [h2], h3, h4, h5, h6⟩
+              exact ⟨rfl, h1, by simp [h2], h3, h4, h5, h6, h7, h8⟩
       · exact hinert _
       · exact hinert _
 theorem sim_list : (cs : Children) → ∀ rn ∈ cs, SimOK cfg acc rn.2
